@@ -46,7 +46,10 @@ ASSUMPTIONS = [
     'relations are outside ("documented binary form")',
     'a proposal on which the mutator raises is reported under C04, not here',
 ]
-OUTSIDE = ['bit-widths above the bound (quick 5, thorough 8)',
+OUTSIDE = ['bit-widths above the bound (quick 5, thorough 16) for all families '
+           'but BVExtractZeroExtend / BvMergeExtend, whose index arithmetic is '
+           'decided for symbolic widths, amounts and indices up to 99 '
+           '(symidx_*)',
            'operand terms of depth > 1']
 
 RULE = ('one evaluation = one (instance, proposal) pair produced by the real '
@@ -56,8 +59,8 @@ RULE = ('one evaluation = one (instance, proposal) pair produced by the real '
 
 
 def bounds(tier):
-    return {'max_width': 5 if tier == 'quick' else 8,
-            'max_ext': 3 if tier == 'quick' else 5}
+    return {'max_width': 5 if tier == 'quick' else 16,
+            'max_ext': 3 if tier == 'quick' else 8}
 
 
 # --------------------------------------------------------------- families
@@ -670,6 +673,175 @@ def run_typed(tier, want=None):
             f'{len(unknown)} queries undecided'}
 
 
+# ------------------------------------------- symbolic widths and indices (E1)
+# The rewrites whose replacement is *computed from numerals* (index
+# arithmetic) are run on instances whose width, extension amounts and extract
+# indices are symbolic integers (1..SYMMAX, CrossHair/z3).  The oracle is a
+# bit-level evaluator over the structure of original and replacement: bit p
+# of a term is either the constant 0 or bit q of the operand x, with p and q
+# linear expressions over the symbolic numerals; the property is asserted for
+# a symbolic position p, so one path covers every width in the bound.
+SYMMAX = 99
+SYMFAMS = {
+    'symidx_extract_zext': ('BVExtractZeroExtend', 'zero_extend'),
+    'symidx_merge_zext': ('BvMergeExtend', 'zero_extend'),
+    'symidx_merge_sext': ('BvMergeExtend', 'sign_extend'),
+    'symidx_merge3_zext': ('BvMergeExtend', 'zero_extend'),
+    'symidx_merge3_sext': ('BvMergeExtend', 'sign_extend'),
+}
+
+
+class _IllSorted(Exception):
+    pass
+
+
+def _num(n):
+    return int(n.data)
+
+
+def _sym_width(t, w):
+    if t.is_leaf():
+        if t.data != 'x':
+            raise _IllSorted(f'unknown leaf {t.data}')
+        return w
+    head = t.data[0]
+    if head.is_leaf():
+        if head.data == '_' and len(t.data) == 3 and t.data[1].data == 'bv0':
+            n = _num(t.data[2])
+            if n < 1:
+                raise _IllSorted('(_ bv0 n) with n < 1')
+            return n
+        raise _IllSorted(f'unexpected operator {head.data}')
+    if len(t.data) != 2 or head.data[0].data != '_':
+        raise _IllSorted('unexpected application')
+    op = head.data[1].data
+    inner = _sym_width(t.data[1], w)
+    if op == 'extract' and len(head.data) == 4:
+        i, j = _num(head.data[2]), _num(head.data[3])
+        if not (0 <= j <= i < inner):
+            raise _IllSorted(f'extract indices outside the operand')
+        return i - j + 1
+    if op in ('zero_extend', 'sign_extend') and len(head.data) == 3:
+        k = _num(head.data[2])
+        if k < 0:
+            raise _IllSorted('negative extension')
+        return inner + k
+    raise _IllSorted(f'unexpected indexed operator {op}')
+
+
+def _sym_bit(t, p, w):
+    """Bit p of t: None for constant 0, else the index of the bit of x."""
+    if t.is_leaf():
+        return p
+    head = t.data[0]
+    if head.is_leaf():
+        return None                       # (_ bv0 n)
+    op = head.data[1].data
+    inner = t.data[1]
+    if op == 'extract':
+        return _sym_bit(inner, p + _num(head.data[3]), w)
+    iw = _sym_width(inner, w)
+    if p < iw:
+        return _sym_bit(inner, p, w)
+    if op == 'zero_extend':
+        return None
+    return _sym_bit(inner, iw - 1, w)
+
+
+def symidx_instance(fam, a, b, c, d):
+    """(term as nested tuple) of the family for numerals a..d, or None."""
+    op = SYMFAMS[fam][1]
+    if fam == 'symidx_extract_zext':
+        # a: width of x, b: extension, c >= d: extract indices
+        if not (0 <= b and 0 <= d <= c < a + b):
+            return None
+        return (('_', 'extract', c, d), (('_', 'zero_extend', b), 'x'))
+    if fam.startswith('symidx_merge3'):
+        if not (0 <= b and 0 <= c and 0 <= d):
+            return None
+        return (('_', op, b), (('_', op, c), (('_', op, d), 'x')))
+    if not (0 <= b and 0 <= c):
+        return None
+    return (('_', op, b), (('_', op, c), 'x'))
+
+
+def symidx_check(fam, a, b, c, d, p):
+    """Shared by the symbolic harness and the concrete replay."""
+    import importlib
+    from ddsmt import smtlib
+    from ddsmt.nodes import Node
+    from ddsmt.mutator_utils import apply_simp
+
+    def mk(t):
+        if isinstance(t, tuple):
+            return Node(*[mk(x) for x in t])
+        return Node(t)
+
+    tt = symidx_instance(fam, a, b, c, d)
+    if tt is None:
+        return 'skip'
+    exprs = [mk(('declare-const', 'x', ('_', 'BitVec', a))),
+             mk(('assert', ('=', tt, tt)))]
+    smtlib.collect_information(exprs)
+    target = exprs[1].data[1].data[1]
+    mut = getattr(importlib.import_module('ddsmt.mutators_bv'),
+                  SYMFAMS[fam][0])()
+    if not mut.filter(target):
+        return 'skip'
+    ow = _sym_width(target, a)
+    if not (0 <= p < ow):
+        return 'skip'
+    ob = _sym_bit(target, p, a)
+    for simp in mut.mutations(target):
+        if list(simp.substs.keys()) != [target.id] or simp.fresh_vars:
+            return f'unexpected proposal shape {simp!r}'
+        repl = simp.substs[target.id]
+        res = apply_simp(exprs, simp)
+        got = res[1].data[1].data[1]
+        if got.__str__() != repl.__str__():
+            return 'apply_simp did not insert the proposed replacement'
+        try:
+            rw = _sym_width(repl, a)
+        except _IllSorted as e:
+            return (f'{target.__str__()} -> {repl.__str__()}: replacement is '
+                    f'not well-sorted ({e})')
+        if rw != ow:
+            return (f'{target.__str__()} -> {repl.__str__()}: width {rw} '
+                    f'instead of {ow}')
+        rb = _sym_bit(repl, p, a)
+        if (ob is None) != (rb is None) or (ob is not None and ob != rb):
+            return (f'{target.__str__()} -> {repl.__str__()}: bit {p} is '
+                    f'{"0" if rb is None else "x[%s]" % rb} instead of '
+                    f'{"0" if ob is None else "x[%s]" % ob}')
+    return None
+
+
+def make_symidx(fam):
+    from vlib.engine import assume, Violation
+
+    def h(a: int, b: int, c: int, d: int, p: int):
+        assume(1 <= a <= SYMMAX and 0 <= b <= SYMMAX and 0 <= c <= SYMMAX
+               and 0 <= d <= SYMMAX and 0 <= p <= 4 * SYMMAX)
+        r = symidx_check(fam, a, b, c, d, p)
+        if r == 'skip':
+            assume(False)
+        if r:
+            raise Violation(r)
+    return h
+
+
+def _sym_setup():
+    from vlib import shims
+    shims.install_hash('T')
+
+
+def _sym_reset():
+    from vlib import shims
+    from ddsmt import smtlib
+    shims.reset_ids()
+    smtlib.reset_information()
+
+
 def known_region(fam, inst):
     """Regions of open known findings (KNOWN_FINDINGS.jsonl); instances in a
     region are still decided and counted but not re-reported.  (None open.)"""
@@ -686,6 +858,13 @@ def partitions(tier):
     parts.append({'name': 'typed', 'kind': 'E2',
                   'run': (lambda: run_typed(tier)), 'budget_s': 600,
                   'bounds': {'scripts': 'C16 generator, widths <= 9'}})
+    for fam in SYMFAMS:
+        parts.append({'name': fam, 'fn': make_symidx(fam),
+                      'setup': _sym_setup, 'reset': _sym_reset,
+                      'budget_s': 300 if tier == 'quick' else 1200,
+                      'bounds': {'numerals': f'width 1..{SYMMAX}, extension '
+                                 f'amounts and indices 0..{SYMMAX}, all '
+                                 'symbolic; bit position symbolic'}})
     return parts
 
 
@@ -702,6 +881,15 @@ def extra_coverage(results):
 def replay(part, cex):
     """Re-run the instance through the real code in a fresh interpreter and
     decide it again (z3, then cvc5 as second opinion)."""
+    if part in SYMFAMS:
+        # native run of the same check on the solver's numerals, then the
+        # concrete instance is decided by z3 as in the enumerated families
+        try:
+            r = symidx_check(part, cex['a'], cex['b'], cex['c'], cex['d'],
+                             cex['p'])
+        except Exception as e:
+            return f'{type(e).__name__}: {e}'
+        return None if r in (None, 'skip') else r
     if part == 'fpshort':
         for long_, short, v in fp_check():
             if long_ == cex['orig'] and v == 'sorterror':
